@@ -693,7 +693,7 @@ pub fn run(args: &Args) -> i32 {
                 // baseline: no pool at all
                 let mut todo: Vec<(Option<usize>, Pert)> = vec![(None, Pert { kind: "none".into(), seed: 0 })];
                 let np = match sel {
-                    "Ecm" | "Auto" => perts_per * 5 / 2,
+                    "Ecm" | "Auto" => perts_per * 11 / 4,
                     "Mpqs" => perts_per * 5 / 4,
                     "Qs" => perts_per * 2,
                     _ if probe => perts_per.max(10),
